@@ -18,12 +18,13 @@ import (
 )
 
 type judged struct {
-	lets []KV // reference values of the top-level lets of the main body
-	p    *Prog
-	o    obs
-	o2   *obs // second run (determinism), typed streams only
-	ref  *Val
-	err  error
+	emptyHelperList bool // the reference saw a native helper return an empty list
+	lets            []KV // reference values of the top-level lets of the main body
+	p               *Prog
+	o               obs
+	o2              *obs // second run (determinism), typed streams only
+	ref             *Val
+	err             error
 }
 
 func obsString(o obs) string {
@@ -52,6 +53,27 @@ func progText(p *Prog) string {
 		s = s[:400] + "..."
 	}
 	return s
+}
+
+// usesOp: some expression of the program applies the operator
+func usesOp(p *Prog, kind, op string) bool {
+	found := false
+	var walk func(e *Expr)
+	walk = func(e *Expr) {
+		if e.K == kind && e.Op == op {
+			found = true
+		}
+		for _, a := range e.A {
+			walk(a)
+		}
+		for _, s := range e.Stmts {
+			walk(s.E)
+		}
+	}
+	for _, v := range p.Views {
+		walk(v.Body)
+	}
+	return found
 }
 
 // names bound by a `let` anywhere in the program
@@ -114,6 +136,15 @@ func verdict(j *judged) (string, string) {
 		return "abnormal-end:" + fam, fmt.Sprintf("[%s] evaluation ended abnormally (%s): %s", fam, j.o.Other, progText(p))
 	}
 	// (1) the value defined by the expression language
+	if j.o.Exit1 && j.emptyHelperList {
+		return "evaluation-fails:helper-returns-empty-list", fmt.Sprintf("[%s] a native helper whose result is the empty list (Fields of a blank string, Split(\"\", \"\"), FindAllString without a match) ends the process with status 1; the view's value is %s: %s", fam, j.ref.String(), progText(p))
+	}
+	if j.o.Exit1 && usesOp(p, "bin", "OR") {
+		return "evaluation-fails:boolean-or-unsupported", fmt.Sprintf("[%s] `a || b` on two booleans (Expr_BinExpr_OR, which the parser produces for `||`) has no entry in functionEvalStrategy / valueFunctions: the process ends with status 1, the value is %s: %s", fam, j.ref.String(), progText(p))
+	}
+	if j.o.Exit1 && usesOp(p, "un", "NOT") {
+		return "evaluation-fails:boolean-not-unsupported", fmt.Sprintf("[%s] `!a` on a boolean (Expr_UnExpr_NOT, which the parser produces for `!`) has no entry in unaryFunctions: the process ends with status 1, the value is %s: %s", fam, j.ref.String(), progText(p))
+	}
 	if j.o.Exit1 {
 		return "evaluation-fails:" + fam, fmt.Sprintf("[%s] a well-typed view whose value is %s ends the process with status 1: %s", fam, j.ref.String(), progText(p))
 	}
@@ -170,6 +201,13 @@ func verdict(j *judged) (string, string) {
 	if len(changedByLet) > 0 {
 		return "caller-binding-rebound-by-let", fmt.Sprintf("[%s] the view has a `let %s` and variable %s of the caller's scope holds another value after the evaluation: %s", fam, changedByLet[0], changedByLet[0], progText(p))
 	}
+	// (2b) the module is not written to (deep comparison with a copy taken before the evaluation)
+	if j.o.Mod != "" {
+		if strings.HasPrefix(j.o.Mod, "view-body-type-defaulted:") {
+			return "module-changed:view-body-type-defaulted", fmt.Sprintf("[%s] eval.EvaluateView wrote into the module: the Type of the body expression of view %s was nil before the evaluation and is the view's return type afterwards (EvaluateView / evalCall: `view.Expr.Type = view.RetType`): %s", fam, strings.TrimPrefix(j.o.Mod, "view-body-type-defaulted:"), progText(p))
+		}
+		return "module-changed:" + fam, fmt.Sprintf("[%s] the module differs after eval.EvaluateView (%s): %s", fam, j.o.Mod, progText(p))
+	}
 	// (3) equal inputs give equal results
 	if j.o2 != nil {
 		a, _ := json.Marshal(j.o)
@@ -192,7 +230,7 @@ func gObs(o obs) string {
 }
 
 func gCase(p *Prog, o obs) string {
-	return fmt.Sprintf("(%s, %s, %s, %s, %s)", gViews(p), gStr(p.Main), gKVs(p.Scope), gObs(o), common.GBool(p.Typed && p.Family != "matrix" && p.Family != "depth2"))
+	return fmt.Sprintf("(%s, %s, %s, %s, %s)", gViews(p), gStr(p.Main), gKVs(p.Scope), gObs(o), common.GBool(p.Typed && !p.Lax && p.Family != "matrix" && p.Family != "depth2"))
 }
 
 // let-rebinding family (reported under its own key): a let of the main body takes the name of a parameter
@@ -284,6 +322,53 @@ func shapeMapTransform(r *common.Rng) *Prog {
 		sAssign("m_after", eName("m")),
 	}
 	return &Prog{Typed: true, Family: "map-transform", Main: "main", Scope: []KV{{"p0", vInt(0)}},
+		Views: []View{{Name: "main", Params: []string{"p0"}, Body: eTr(eName("p0"), ".", "other", st...)}}}
+}
+
+// where over a MAP (whereMap): predicates on the pair's value and key, the scope variable shadowing an outer binding
+// that is read afterwards, the result used by count / membership / a transform over its entries
+func shapeWhereMap(r *common.Rng) *Prog {
+	n := 1 + r.Intn(4)
+	var fields []Stmt
+	used := map[string]bool{}
+	for i := 0; i < n; i++ {
+		f := fieldPool[r.Intn(len(fieldPool))]
+		if used[f] {
+			continue
+		}
+		used[f] = true
+		fields = append(fields, sAssign(f, eLit(vInt(int64(r.Intn(9))))))
+	}
+	if len(used) == 2 && used["key"] && used["value"] {
+		fields = fields[:1] // exactly {key, value} is what the evaluator takes for an entry pair
+	}
+	rec := eTr(eName("p0"), ".", "other", fields...)
+	c := int64(r.Intn(9))
+	byValue := eBinSv("WHERE", eName("m"), eBin([]string{"GT", "LE", "NE"}[r.Intn(3)], eAttr(eName("e"), "value"), eLit(vInt(c))), "e")
+	byKey := eBinSv("WHERE", eName("m"), eBin("NE", eAttr(eName("e"), "key"), eLit(vStr(fieldPool[r.Intn(len(fieldPool))]))), "e")
+	both := eBinSv("WHERE", eBinSv("WHERE", eName("m"), eBin("GE", eAttr(eName("."), "value"), eLit(vInt(c/2))), "."),
+		eBin("IN", eAttr(eName("x"), "key"), eList(eLit(vStr("f")), eLit(vStr("g")), eLit(vStr("key")))), "x")
+	keys := eTr(eName("kept"), "y", "other", sAssign("k", eAttr(eName("y"), "key")), sAssign("v", eAttr(eName("y"), "value")))
+	st := []Stmt{
+		sLet("m", rec), sLet("kept", byValue), sAssign("kept", eName("kept")), sAssign("by_key", byKey), sAssign("both", both),
+		sAssign("n", eCall(".count", eName("kept"))), sAssign("has", eBin("IN", eLit(vStr("f")), eName("kept"))),
+		sAssign("entries", keys), sAssign("m_after", eName("m")), sAssign("e_after", eBin("ADD", eName("e"), eLit(vStr("#")))),
+		sAssign("none", eBinSv("WHERE", eName("m"), eLit(vBool(false)), "e")),
+	}
+	return &Prog{Typed: true, Family: "where-map", Main: "main", Scope: []KV{{"e", vStr(strPool[r.Intn(len(strPool))])}, {"p0", vInt(0)}},
+		Views: []View{{Name: "main", Params: []string{"e", "p0"}, Body: eTr(eName("p0"), ".", "other", st...)}}}
+}
+
+// boolean OR and NOT: operators of the grammar (`||`, `!`) the evaluator's tables have no entry for (fixed inputs of two
+// findings, every run)
+func fixedBoolOr() *Prog {
+	st := []Stmt{sAssign("out", eBin("OR", eBin("EQ", eName("p0"), eLit(vInt(1))), eLit(vBool(true))))}
+	return &Prog{Typed: true, Family: "boolean-or", Main: "main", Scope: []KV{{"p0", vInt(0)}},
+		Views: []View{{Name: "main", Params: []string{"p0"}, Body: eTr(eName("p0"), ".", "other", st...)}}}
+}
+func fixedBoolNot() *Prog {
+	st := []Stmt{sAssign("out", eUn("NOT", eBin("EQ", eName("p0"), eLit(vInt(1)))))}
+	return &Prog{Typed: true, Family: "boolean-not", Main: "main", Scope: []KV{{"p0", vInt(0)}},
 		Views: []View{{Name: "main", Params: []string{"p0"}, Body: eTr(eName("p0"), ".", "other", st...)}}}
 }
 
@@ -468,7 +553,7 @@ func main() {
 	}
 	c := common.Setup("C10")
 	defer c.Finish()
-	c.Res.Rule = "each case = (views of one transform application, caller's scope) evaluated by the real eval.EvaluateView in a worker subprocess; streams: typed programs over the modelled operators (lets reused by later statements, helper views, iterations whose scope variable shadows a binding), the Appendix-B shapes (a list bound once and concatenated twice; where/flatten/transform whose scope variable equals an outer binding; set-typed transforms producing duplicates; plus unions of unsorted int / string sets with repeats, and transforms over map entries nested in a list transform), the two fixed regression inputs of the known findings, terminating self- and mutually recursive views with the recursive call as an operand of each operator in turn (re-entrant evaluation of one AST node), a let that takes a parameter's name / an outer let's name from inside a nested transform, the operator x kind x kind matrix at depth 1, all compositions of two operators over the literal pool whose value the reference defines (depth 2), blind mutants of typed programs (model comparison only); distinct = distinct program JSON; non-trivial = the main body applies at least one operator, transform or call"
+	c.Res.Rule = "each case = (views of one transform application, caller's scope) evaluated by the real eval.EvaluateView in a worker subprocess; streams: typed programs over the modelled operators (lets reused by later statements, helper views, iterations whose scope variable shadows a binding), the Appendix-B shapes (a list bound once and concatenated twice; where/flatten/transform whose scope variable equals an outer binding; set-typed transforms producing duplicates; plus unions of unsorted int / string sets with repeats, transforms over map entries nested in a list transform, and where over a map by value / by key / nested with the variable shadowing a binding), the two fixed inputs of boolean `||` / `!`, the two fixed regression inputs of the known findings, terminating self- and mutually recursive views with the recursive call as an operand of each operator in turn (re-entrant evaluation of one AST node), call resolution (a view named like a native helper of eval.GoFuncMap or like .count, called from another view with its own / the helper's number of arguments and with arguments that would or would not fit the helper; helpers called directly with fitting arguments, a wrong number, wrong kinds, kinds the gate lets through, empty-list results; unknown names; each helper name at least once per run, and the callee also evaluated directly by EvaluateView on the same argument values), a let that takes a parameter's name / an outer let's name from inside a nested transform, the operator x kind x kind matrix at depth 1, all compositions of two operators over the literal pool whose value the reference defines (depth 2), blind mutants of typed programs (model comparison only); distinct = distinct program JSON; non-trivial = the main body applies at least one operator, transform or call"
 	par := 8
 
 	if c.Replay != "" {
@@ -481,6 +566,7 @@ func main() {
 		o2 := runOne(&p)
 		j.o2 = &o2
 		j.ref, j.lets, j.err = refRun(&p)
+		j.emptyHelperList = lastRefEmptyHelperList
 		judge(c, j)
 		c.Count("replay", true)
 		rs := "outside the reference semantics"
@@ -506,11 +592,11 @@ func main() {
 
 	// 0. the fixed regression inputs of the two known findings (first, every run) and the oracle's self-check
 	oracleSelfCheck(c)
-	progs = append(progs, fixedLetRebind(), fixedNestedLet())
+	progs = append(progs, fixedLetRebind(), fixedNestedLet(), fixedBoolOr(), fixedBoolNot())
 	// A. Appendix-B shapes + the let-rebinding family
 	nshape := 40 * scale
 	for i := 0; i < nshape; i++ {
-		progs = append(progs, shapeConcatTwice(c.Rng.Fork()), shapeScopeVarShadow(c.Rng.Fork()), shapeSetTransformDup(c.Rng.Fork()), shapeSetUnion(c.Rng.Fork()), shapeMapTransform(c.Rng.Fork()))
+		progs = append(progs, shapeConcatTwice(c.Rng.Fork()), shapeScopeVarShadow(c.Rng.Fork()), shapeSetTransformDup(c.Rng.Fork()), shapeSetUnion(c.Rng.Fork()), shapeMapTransform(c.Rng.Fork()), shapeWhereMap(c.Rng.Fork()))
 		if i%8 == 0 {
 			progs = append(progs, shapeLetRebind(c.Rng.Fork()), shapeNestedLetRebind(c.Rng.Fork()))
 		}
@@ -522,6 +608,9 @@ func main() {
 		nmut = 30 * scale
 	}
 	progs = append(progs, recursivePrograms(c.Rng.Fork(), nmut)...)
+	// A3. call resolution: views named like native helpers / builtins called from another view, helpers called directly
+	// (fitting and not), unknown names (calls.go)
+	progs = append(progs, callPrograms(c.Rng.Fork(), 30*scale)...)
 	// B. typed programs
 	ntyped := 450 * scale
 	for i := 0; i < ntyped; i++ {
@@ -536,7 +625,7 @@ func main() {
 	nsrc := 0
 	why := map[string]int{}
 	for _, p := range append([]*Prog(nil), progs...) {
-		if p.Family == "let-rebinds-parameter" || p.Family == "nested-let-rebinds-outer-let" {
+		if p.Family == "let-rebinds-parameter" || p.Family == "nested-let-rebinds-outer-let" || p.Family == "boolean-or" || p.Family == "boolean-not" {
 			continue
 		}
 		src, w := renderSource(p)
@@ -622,6 +711,8 @@ func main() {
 		second[i] = &o
 	}
 
+	judgeCallPairs(c, progs, obsv)
+
 	nbad := 0
 	srcSampled := map[string]bool{}
 	cs := c.NewCases("C10", caseHeader, "c10_case", caseFooter, 150)
@@ -629,6 +720,7 @@ func main() {
 		j := &judged{p: p, o: obsv[i], o2: second[i]}
 		if p.Typed {
 			j.ref, j.lets, j.err = refRun(p)
+			j.emptyHelperList = lastRefEmptyHelperList
 		}
 		judge(c, j)
 		b, _ := json.Marshal(p)
